@@ -36,7 +36,7 @@ Qed.
 
 Example C20_example :
   let g := mkcfg 2 false false None false None 500 20 10 250 in
-  let cs := [mkc OK 3 false true 1; mkc INVALID 0 false false 0; mkc OK 0 false true 1; mkc OK 1 false true 1] in
+  let cs := [mkc OK 3 false true 1 false; mkc INVALID 0 false false 0 false; mkc OK 0 false true 1 false; mkc OK 1 false true 1 false] in
   let r := cround g cs [1;1;0;1;0;1] (xinit 0 0) in
   r_win _ r = Some 2 /\ x_failed (r_x _ r) = 2 /\ r_sched _ r = 4.
 Proof. vm_compute. auto. Qed.
